@@ -223,14 +223,27 @@ func verifyCertificateSignature(
 		return err
 	}
 
+	// The claimed scheme must be one the certificate's key can produce, and
+	// every scheme but Ed25519 signs a real digest. Otherwise a peer could pair
+	// an ECDSA or RSA certificate with a scheme whose "hash" is empty, and a
+	// signature over an empty digest can be forged from the public key alone.
 	switch pubKey := certificate.PublicKey.(type) {
 	case ed25519.PublicKey:
+		if signatureAlgorithm != signature.Ed25519 {
+			return dtlserrors.ErrInvalidSignatureAlgorithm
+		}
 		if ok := ed25519.Verify(pubKey, message, remoteKeySignature); !ok {
 			return dtlserrors.ErrKeySignatureMismatch
 		}
 
 		return nil
 	case *ecdsa.PublicKey:
+		if signatureAlgorithm != signature.ECDSA {
+			return dtlserrors.ErrInvalidSignatureAlgorithm
+		}
+		if len(hashAlgorithm.Digest(message)) == 0 {
+			return dtlserrors.ErrInvalidHashAlgorithm
+		}
 		ecdsaSig := &ecdsaSignature{}
 		if _, err := asn1.Unmarshal(remoteKeySignature, ecdsaSig); err != nil {
 			return err
@@ -245,7 +258,13 @@ func verifyCertificateSignature(
 
 		return nil
 	case *rsa.PublicKey:
+		if signatureAlgorithm != signature.RSA && !signatureAlgorithm.IsPSS() {
+			return dtlserrors.ErrInvalidSignatureAlgorithm
+		}
 		hashed := hashAlgorithm.Digest(message)
+		if len(hashed) == 0 {
+			return dtlserrors.ErrInvalidHashAlgorithm
+		}
 
 		// Use RSA-PSS verification if the signature algorithm is PSS
 		if signatureAlgorithm.IsPSS() {
